@@ -19,6 +19,13 @@ def main():
     mod = importlib.import_module("checks." + a.pid.lower())
     try:
         if a.replay:
+            try:
+                import json
+
+                if json.load(open(a.replay)).get("extra_validation"):
+                    os.environ["VERIF_EXTRA_VALIDATION"] = "1"
+            except Exception:
+                pass
             code = mod.replay(a.replay)
         else:
             code = mod.run(a.tier, seed)
